@@ -6,7 +6,7 @@ import re
 
 WHAT = json.load(open("/verif/tools/r4_what.json"))
 rows = ["| seed | first | now | what it is → what was missing / added |", "|---|---|---|---|"]
-n_first = {"caught": 0, "MISSED": 0, "n/a": 0}
+n_first = {"caught": 0, "MISSED": 0, "n/a": 0, "added*": 0}
 for m in sorted(glob.glob("/verif/seeded/*-r4s*/meta.json")):
     sid = m.split("/")[-2]
     d = json.load(open(m))
@@ -22,13 +22,18 @@ for m in sorted(glob.glob("/verif/seeded/*-r4s*/meta.json")):
             return "MISSED (exit 2)"
         return "MISSED"
     f, nw = verdict(first), verdict(now)
+    note = d.get("note", "")
+    if f == "—" and "MISSED" in note:
+        f = "MISSED"
+    if "added*" in note:
+        f = "added*"
     if "note" in d and d["note"].startswith("NOT a violation"):
         f, nw = "n/a", "n/a"
     if nw == "—":
         nw = f if f == "caught" else ("MISSED" if f.startswith("MISSED") else f)
-    n_first["caught" if f == "caught" else ("n/a" if f in ("n/a", "—") else "MISSED")] += 1
+    n_first["caught" if f == "caught" else ("added*" if f == "added*" else ("n/a" if f in ("n/a", "—") else "MISSED"))] += 1
     rows.append(f"| {sid} | {f} | {nw} | {WHAT.get(sid, (d.get('summary') or '')[:160])} |")
-table = "\n".join(rows) + f"\n\nFirst measurement: {n_first['caught']} caught, {n_first['MISSED']} missed, {n_first['n/a']} not measured / not applicable."
+table = "\n".join(rows) + f"\n\nFirst measurement: {n_first['caught']} caught, {n_first['MISSED']} missed, {n_first['added*']} added* (shapes added from the seeder's report before the measurement), {n_first['n/a']} not measured."
 p = "/verif/DESIGN.md"
 s = open(p).read()
 if "@@R4TABLE@@" in s:
